@@ -50,7 +50,14 @@ fn key_case(rng: &mut Rng) -> Option<KeyCase> {
         }
     };
     if rng.chance(2, 5) {
-        let (raw, enf) = mk(rng, 1, 48);
+        // short-term keys are the password itself: cover the HMAC block-size boundary (keys longer
+        // than 64 bytes are hashed first, keys of exactly 64 are not)
+        let (raw, enf) = if rng.chance(1, 4) {
+            let l = *rng.pick(&[63usize, 64, 64, 65, 66, 127, 128, 129, 200]);
+            mk(rng, l, l)
+        } else {
+            mk(rng, 1, 48)
+        };
         let lib = HMACKey::new_short_term(&raw).ok()?;
         let w1 = one_char_off(rng, &raw);
         let mut wrong = Vec::new();
